@@ -14,6 +14,7 @@ REGISTRY = {
     'C05': ('checks.layout', 'check_c05', 'model_checking'),
     'C06': ('checks.layout', 'check_c06', 'model_checking'),
     'C15': ('checks.registry', 'check_c15', 'model_checking'),
+    'C18': ('checks.config', 'check_c18', 'model_checking'),
     'C20': ('checks.threads', 'check_c20', 'model_checking'),
 }
 
